@@ -45,7 +45,11 @@ func (e *Engine) propertyRoots(prop string) []string {
 			}
 		}
 		chk(ct.Ensures)
-		chk(ct.Requires)
+		// (a tagged precondition alone does not make a function a root: it is an obligation of
+		// the callers; the function is verified under the property when it promises something)
+		for _, ac := range ct.AtCalls {
+			chk([]*Clause{ac.Clause})
+		}
 		for _, l := range ct.Loops {
 			chk(l.Invs)
 		}
